@@ -665,6 +665,36 @@ func genSystematic() []*Case {
 				}
 			}
 		}
+		// the opening record: the start pattern of a CLOSED range matches and the stop-pattern function
+		// leaves through next/nextfile/exit on that very record -- the range is open from then on, so later
+		// records without a start match are still selected; and the dual: the start-pattern function leaves on a
+		// record that would have opened the range -- it stays closed
+		{
+			opening := []NamedRecs{{"f1", []string{"x", "b S h", "a", "b", "m E", "y"}}, {"f2", []string{"c", "n E", "d S", "k"}}}
+			for _, args := range [][]string{{"f1", "f2"}, {"f2", "f1"}, {"f1"}} {
+				for _, inFunc := range []bool{false, true} {
+					leave := []Stmt{{Op: "IF", C: hasS, A: []Stmt{ctl}}}
+					var funcs []Func
+					if inFunc {
+						funcs = []Func{{Local: "l0", Body: leave}}
+						leave = []Stmt{{Op: "CALL", N: 0}}
+					}
+					stop := Pattern{Pre: append([]Stmt{tr(4)}, leave...), C: hasE}
+					for _, start := range []Pattern{{C: hasS, Inline: true}, {C: hasS}} {
+						c := mk("sys-control-opening-record", args, Prog{Rules: []Rule{{Kind: "pr", P1: start, P2: stop, Body: []Stmt{tr(1)}}, {Kind: "pn", Body: []Stmt{tr(3)}}},
+							End: []Stmt{tr(9)}, Funcs: funcs})
+						c.Files = opening
+						c = mk("sys-control-opening-record", args, Prog{Rules: []Rule{{Kind: "pr", P1: start, P2: stop, NoBody: true}}, Funcs: funcs})
+						c.Files = opening
+					}
+					// dual: the start pattern's function leaves on the S record; stop pattern plain
+					startLeaves := Pattern{Pre: append([]Stmt{tr(4)}, leave...), C: hasS}
+					c := mk("sys-control-opening-record", args, Prog{Rules: []Rule{{Kind: "pr", P1: startLeaves, P2: Pattern{C: hasE, Inline: true}, Body: []Stmt{tr(1)}}, {Kind: "pn", Body: []Stmt{tr(3)}}},
+						End: []Stmt{tr(9)}, Funcs: funcs})
+					c.Files = opening
+				}
+			}
+		}
 		for _, kind := range []string{"pe", "pr"} {
 			p := Pattern{Pre: []Stmt{{Op: "IF", C: &Cond{Op: "fnr", K: 2}, A: []Stmt{ctl}}}, C: &Cond{Op: "t"}}
 			mk("sys-control-pattern", []string{"f1", "f2"}, Prog{Rules: []Rule{{Kind: kind, P1: p, P2: Pattern{C: hasE}, Body: []Stmt{tr(1)}}, {Kind: "pn", Body: []Stmt{tr(3)}}}, End: []Stmt{tr(9)}})
